@@ -453,3 +453,157 @@ def r_entry_limits(model, obligation):
             if got != "LineTooLong":
                 bad.append(f"partial {kind} of {len(over)} bytes (limit {lim}, limits {mls}/{mfs}) is continued: {got}")
     return {"confirmed": bool(bad), "detail": "; ".join(bad[:4]) or "all line-limit verdicts independent of the cut", "input": bad}
+
+
+@native("C01.te.is_chunked")
+def r_is_chunked_te(model, obligation):
+    """the real HttpRequestParser._is_chunked_te on the witness Transfer-Encoding value; the clause is re-evaluated on the
+    value as the real code will split it"""
+    w = model.get("__witness__") or {}
+    if "codings" not in w:
+        return {"confirmed": False, "detail": "no witness in the model"}
+    from aiohttp.http_exceptions import BadHttpMessage
+    from aiohttp.http_parser import HttpRequestParserPy
+
+    te = ",".join(str(x) for x in w["codings"])
+    parts = te.split(",")
+    is_chunked = lambda p: p.strip(" \t").encode("latin1", "replace").lower() == b"chunked" and p.strip(" \t").isascii()
+    ok = is_chunked(parts[-1]) and sum(1 for p in parts if is_chunked(p)) == 1
+    try:
+        got = HttpRequestParserPy._is_chunked_te(None, te)
+    except BadHttpMessage:
+        got = "refused"
+    except Exception as e:  # noqa: BLE001
+        return {"confirmed": True, "detail": f"_is_chunked_te({te!r}) raised {e!r}", "input": te}
+    want = True if ok else "refused"
+    return {"confirmed": got != want, "detail": f"Transfer-Encoding: {te!r} -> {got!r}; RFC 9112 6.1 (single, final chunked) -> {want!r}",
+            "input": te}
+
+
+@native("C06.proto.should_close")
+def r_should_close(model, obligation):
+    """a real ResponseHandler put into the witness state; should_close against 'not clean' as the property defines it"""
+    w = (model.get("__witness__") or {}).get("state")
+    ww = model.get("__witness__") or {}
+    if not w or obligation != "C06.proto.should_close.equals_not_clean":
+        return {"confirmed": False, "detail": "no replayable witness for this obligation"}
+    import collections
+    import unittest.mock as mock
+
+    from aiohttp.client_proto import ResponseHandler
+    from aiohttp.http_parser import HttpResponseParserPy
+
+    loop = asyncio.new_event_loop()
+    p = ResponseHandler(loop)
+    p._should_close = bool(w["forced"])
+    if w["has_payload"]:
+        p._payload = mock.Mock()
+        p._payload.is_eof.return_value = bool(w["payload_eof"])
+    p._upgraded = bool(w["upgraded"])
+    p._exception = RuntimeError("x") if w["failed"] else None
+    p._payload_parser = mock.Mock() if w["custom_parser"] else None
+    p._buffer = collections.deque([("msg", "payload")] if w["queued"] else [])
+    p._tail = _b(w["tail"])
+    retains = bool(ww.get("parser_retains_input"))
+    if retains:
+        p._parser = HttpResponseParserPy(p, loop, 65536)
+        p._parser.feed_data(b"HTTP/1.1 200 OK\r\nContent-Le")  # an incomplete header block is held back inside
+    clean = (not p._should_close and (not w["has_payload"] or w["payload_eof"]) and not p._upgraded and p._exception is None
+             and p._payload_parser is None and not p._buffer and not p._tail and not retains)
+    got = p.should_close
+    return {"confirmed": bool(got) == bool(clean), "detail": f"state {w}, parser holds back input: {retains}: should_close={got!r}, "
+            f"clean (property) = {clean!r}", "input": {"state": {k: (v if not isinstance(v, dict) else v) for k, v in w.items()}}}
+
+
+@native("C15.range.parse")
+def r_range_parse(model, obligation):
+    """the real BaseRequest.http_range on 'Range: bytes=<first>-<last>' built from the counterexample's digit strings"""
+    if "first.empty" not in model or "last.empty" not in model:
+        return {"confirmed": False, "detail": "the counterexample does not describe a matched Range header"}
+    from aiohttp.test_utils import make_mocked_request
+
+    def digits(prefix):
+        if model.get(prefix + ".empty"):
+            return ""
+        v = int(model.get(prefix + ".value", 0))
+        return str(v) if v < 10 ** 40 else None
+
+    a, b = digits("first"), digits("last")
+    if a is None or b is None:
+        return {"confirmed": False, "detail": "numbers too long to replay"}
+    hdr = f"bytes={a}-{b}"
+    req = make_mocked_request("GET", "/", headers={"Range": hdr})
+    try:
+        got = req.http_range
+        got = (got.start, got.stop, got.step)
+    except ValueError:
+        got = "ValueError"
+    if a == "" and b == "":
+        want = "ValueError"
+    elif a == "":
+        want = "ValueError" if int(b) == 0 else (-int(b), None, 1)
+    elif b == "":
+        want = (int(a), None, 1)
+    else:
+        want = "ValueError" if int(a) > int(b) else (int(a), int(b) + 1, 1)
+    return {"confirmed": got != want, "detail": f"Range: {hdr} -> {got!r}; RFC 7233 2.1 -> {want!r}", "input": hdr}
+
+
+@native("C15.range.arith")
+def r_range_arith(model, obligation):
+    """a real static file of the counterexample's size served by web.FileResponse over loop-back, requested with the
+    counterexample's Range: status, Content-Range, Content-Length and body against RFC 7233"""
+    path = model.get("__path__") or []
+    keys = ("file_size", "first_pos", "last_pos", "suffix_len")
+    if not all(k in model for k in keys):
+        return {"confirmed": False, "detail": "counterexample lacks the range inputs"}
+    size, a, b, s = (int(model[k]) for k in keys)
+    if not (0 <= size <= 1 << 16 and 0 <= a <= 1 << 20 and 0 <= b <= 1 << 20 and 1 <= s <= 1 << 20):
+        return {"confirmed": False, "detail": "numbers too large to replay on a real file"}
+    import os
+    import tempfile
+
+    import aiohttp
+    from aiohttp import web
+
+    content = bytes(i % 251 for i in range(size))
+    results = []
+
+    async def run(td):
+        p = os.path.join(td, "f.bin")
+        with open(p, "wb") as fh:
+            fh.write(content)
+        app = web.Application()
+        async def handler(request):
+            return web.FileResponse(p)
+
+        app.router.add_get("/f", handler)
+        runner = web.AppRunner(app)
+        await runner.setup()
+        site = web.TCPSite(runner, "127.0.0.1", 0)
+        await site.start()
+        port = site._server.sockets[0].getsockname()[1]
+        async with aiohttp.ClientSession(auto_decompress=False) as cs:
+            for spec, want in ((f"bytes={a}-", (a, size - 1) if a < size else None),
+                               (f"bytes={a}-{b}", (a, min(b, size - 1)) if a <= b and a < size else None),
+                               (f"bytes=-{s}", (max(size - s, 0), size - 1) if size > 0 else None)):
+                if spec == f"bytes={a}-{b}" and a > b:
+                    continue
+                async with cs.get(f"http://127.0.0.1:{port}/f", headers={"Range": spec, "Accept-Encoding": "identity"}) as r:
+                    body = await r.read()
+                    if want is None:
+                        ok = r.status == 416 and r.headers.get("Content-Range") == f"bytes */{size}" and body == b""
+                    else:
+                        f_, l_ = want
+                        ok = (r.status == 206 and r.headers.get("Content-Range") == f"bytes {f_}-{l_}/{size}"
+                              and int(r.headers.get("Content-Length", -1)) == l_ - f_ + 1 and body == content[f_:l_ + 1])
+                    if not ok:
+                        results.append(f"size={size} Range: {spec} -> {r.status} Content-Range={r.headers.get('Content-Range')!r} "
+                                       f"Content-Length={r.headers.get('Content-Length')!r} body[{len(body)}]; RFC 7233: "
+                                       + (f"206 bytes {want[0]}-{want[1]}/{size}" if want else f"416 bytes */{size}"))
+        await runner.cleanup()
+
+    with tempfile.TemporaryDirectory() as td:
+        asyncio.run(run(td))
+    return {"confirmed": bool(results), "detail": "; ".join(results[:3]) or "all three range forms answered per RFC 7233",
+            "input": {"size": size, "first": a, "last": b, "suffix": s}}
